@@ -3,7 +3,7 @@
     A history is a list of calls of [next]; each call sees its own graph snapshot
     (so every sequence of edits between calls is covered) and its own iteration
     order of the private visited set. *)
-From PM Require Import Model.Prelude Model.Toposort Proofs.ToposortProofs.
+From PM Require Import Model.Prelude Model.Toposort Proofs.ToposortProofs Cert.TopoCheck Proofs.TopoCheckSound.
 
 (** (1) each node is emitted at most once — unconditionally. *)
 Theorem c15_at_most_once :
@@ -43,6 +43,21 @@ Theorem c15_next_total :
     forall fuel st, length (ts_stack st) + 2 <= fuel -> exists r, ts_next fuel g order st = Ok r.
 Proof. exact ts_next_total. Qed.
 
+(** The property constrains what is emitted, not which of several ready nodes
+    comes first.  When the implementation's emissions differ from the model's on
+    an admissible history, the check evaluates [hist_okb] (extracted) on the
+    history itself: what it accepts satisfies the three clauses. *)
+Theorem c15_history_check_sound :
+  forall (calls : list ts_call) (outs : list (option N)),
+    hist_okb calls outs [] = true ->
+    NoDup (somes outs) /\
+    forall c1 g ord c2, calls = c1 ++ (g, ord) :: c2 ->
+      exists o1 r o2, outs = o1 ++ r :: o2 /\ length o1 = length c1 /\
+        (forall n, r = Some n ->
+           In n (t_nodes g) /\ ~ In n (somes o1) /\ forall p, In p (t_preds g n) -> In p (somes o1)) /\
+        (r = None -> forall n, In n (t_nodes g) -> In n (somes o1)).
+Proof. exact hist_okb_sound. Qed.
+
 (** Non-vacuity: the scripted edit of the repository's own unit test
     (0 -> 2 -> 3 -> 1; after three calls edge 3->1 is replaced by 2->1, then a
     node 4 is added below 0). *)
@@ -60,3 +75,4 @@ Print Assumptions c15_at_most_once.
 Print Assumptions c15_after_preds.
 Print Assumptions c15_exhaustive.
 Print Assumptions c15_next_total.
+Print Assumptions c15_history_check_sound.
